@@ -26,7 +26,7 @@ class IrParseException(Exception):
 def tokenize(lines):
     # Create a regular expression for the lexing part:
     tok_spec = [
-        ("FLOAT", r"\-?\d+(?:\.\d+(?:e[+-]?\d+)?|e[+-]?\d+)"),
+        ("FLOAT", r"\-?\d+(?:\.\d+(?:e[+-]?\d+)?|e[+-]?\d+)|\-inf\b"),
         ("INT", r"\-?\d+"),
         ("STRING", r"'[^']*'"),
         ("ID", r"[A-Za-z][A-Za-z\d_]*"),
@@ -374,6 +374,8 @@ class Reader:
                 data = self.consume("STRING")[1]
                 data = unhexlify(data)
                 ins = ir.LiteralData(data, name)
+            elif a in ("inf", "nan"):
+                ins = ir.Const(float(a), name, ty)
             else:
                 raise NotImplementedError(a)
         elif self.peek in ["INT", "FLOAT"]:
